@@ -13,7 +13,10 @@ import (
 	"github.com/aperturerobotics/bifrost/peer"
 	"github.com/aperturerobotics/bifrost/protocol"
 	"github.com/aperturerobotics/bifrost/stream"
+	"github.com/aperturerobotics/controllerbus/bus"
+	"github.com/aperturerobotics/controllerbus/bus/inmem"
 	"github.com/aperturerobotics/controllerbus/directive"
+	cdc "github.com/aperturerobotics/controllerbus/directive/controller"
 	"github.com/sirupsen/logrus"
 )
 
@@ -67,12 +70,21 @@ type fakeRH struct {
 	once   sync.Once
 	total  *atomic.Int64
 	nextID uint32
+	// reject: AddValue returns accepted=false; the values are kept in offered
+	reject  bool
+	offered []directive.Value
 }
 
 func newRH(total *atomic.Int64) *fakeRH { return &fakeRH{idle: make(chan struct{}), total: total} }
 
 func (h *fakeRH) AddValue(v directive.Value) (uint32, bool) {
 	h.mtx.Lock()
+	if h.reject {
+		// fault injection: the directive instance refuses the value
+		h.offered = append(h.offered, v)
+		h.mtx.Unlock()
+		return 0, false
+	}
 	h.vals = append(h.vals, v)
 	h.nextID++
 	id := h.nextID
@@ -100,7 +112,7 @@ func (h *fakeRH) AddResolver(res directive.Resolver, cb func()) func() { return 
 func (h *fakeRH) values() []directive.Value {
 	h.mtx.Lock()
 	defer h.mtx.Unlock()
-	return append([]directive.Value{}, h.vals...)
+	return append(append([]directive.Value{}, h.vals...), h.offered...)
 }
 
 var _ directive.ResolverHandler = (*fakeRH)(nil)
@@ -113,6 +125,10 @@ type countStream struct {
 	// onClose, if set, runs inside Close (i.e. inside the caller's critical
 	// section): used to open a scheduling window while a close is in progress.
 	onClose func()
+	// fault injection: the next Close (failNext) or every Close (failAll)
+	// returns an error, as a stream does whose link is already gone
+	failNext atomic.Bool
+	failAll  atomic.Bool
 }
 
 func (s *countStream) Read(b []byte) (int, error)         { return 0, io.EOF }
@@ -124,6 +140,9 @@ func (s *countStream) Close() error {
 	s.closes.Add(1)
 	if s.onClose != nil {
 		s.onClose()
+	}
+	if s.failNext.Swap(false) || s.failAll.Load() {
+		return io.ErrClosedPipe
 	}
 	return nil
 }
@@ -216,6 +235,7 @@ type fakeLink struct {
 	other         *node
 	otherLink     *fakeLink
 	conns         *connSet
+	failOpen      func(pid protocol.ID) bool
 }
 
 type connSet struct {
@@ -243,6 +263,10 @@ func (l *fakeLink) GetLocalPeer() peer.ID          { return l.local }
 func (l *fakeLink) GetRemotePeer() peer.ID         { return l.remote }
 func (l *fakeLink) OpenMountedStream(ctx context.Context, pid protocol.ID, opts stream.OpenOpts) (link.MountedStream, error) {
 	if l.other == nil {
+		return nil, io.ErrClosedPipe
+	}
+	if l.failOpen != nil && l.failOpen(pid) {
+		// fault injection: the stream cannot be opened
 		return nil, io.ErrClosedPipe
 	}
 	c1, c2 := bufPipe()
@@ -357,4 +381,81 @@ func (n *node) received() [][]directive.Value {
 		out[i] = rh.values()
 	}
 	return out
+}
+
+// ---- a real controller bus with the solicitation controller on it ----
+
+// refCollector is the reference handler of one AddDirective call.
+type refCollector struct {
+	mtx  sync.Mutex
+	vals []directive.Value
+	n    *atomic.Int64
+}
+
+func (r *refCollector) HandleValueAdded(_ directive.Instance, v directive.AttachedValue) {
+	r.mtx.Lock()
+	r.vals = append(r.vals, v.GetValue())
+	r.mtx.Unlock()
+	r.n.Add(1)
+}
+func (r *refCollector) HandleValueRemoved(directive.Instance, directive.AttachedValue) {}
+func (r *refCollector) HandleInstanceDisposed(directive.Instance)                      {}
+func (r *refCollector) values() []directive.Value {
+	r.mtx.Lock()
+	defer r.mtx.Unlock()
+	return append([]directive.Value{}, r.vals...)
+}
+
+type busNode struct {
+	*node
+	b    bus.Bus
+	refs []*refCollector
+	rels []directive.Reference
+	// instances[i] == instances[j] when the bus merged the two directives
+	instances []directive.Instance
+}
+
+// newBusNode builds an in-memory controller bus (real directive controller,
+// real de-duplication by IsEquivalent) and adds a real solicitation controller.
+func newBusNode() *busNode {
+	n := newNode(false)
+	dc := cdc.NewController(n.ctx, le)
+	b := inmem.NewBus(dc)
+	if _, err := b.AddController(n.ctx, n.ctrl, nil); err != nil {
+		panic(err)
+	}
+	return &busNode{node: n, b: b}
+}
+
+// addSol adds a SolicitProtocol directive to the bus and waits until the
+// directive instance is idle (the controller's resolver has registered it).
+func (bn *busNode) addSol(s solSpec) {
+	rc := &refCollector{n: &bn.total}
+	di, ref, err := bn.b.AddDirective(link_solicit.NewSolicitProtocol(protocol.ID(s.pid), s.ctx, peer.ID(s.peer), s.tpt), rc)
+	if err != nil {
+		panic(err)
+	}
+	idle := make(chan struct{})
+	var once sync.Once
+	rel := di.AddIdleCallback(func(isIdle bool, _ []error) {
+		if isIdle {
+			once.Do(func() { close(idle) })
+		}
+	})
+	select {
+	case <-idle:
+	case <-time.After(10 * time.Second):
+		panic("SolicitProtocol directive did not become idle on the bus")
+	}
+	rel()
+	bn.refs = append(bn.refs, rc)
+	bn.rels = append(bn.rels, ref)
+	bn.instances = append(bn.instances, di)
+}
+
+func (bn *busNode) close() {
+	for _, r := range bn.rels {
+		r.Release()
+	}
+	bn.node.close()
 }
